@@ -249,4 +249,35 @@ theorem pathPrefixes_mem (acc p rest : List TRn) (sep : TRn) (first : Bool) (hs 
     · exact List.mem_cons_of_mem _ this
     · exact this
 
+
+/-! ## multi-type fields -/
+
+theorem convertLoop_all (fn : List Nat) (types : List TypeIn) (seen : List (List Nat)) (main : Option MType) (all : List MType)
+    (m : Option MType) (a : List MType) (h : convertLoop fn types seen main all = some (m, a)) :
+    a = all ++ types.map (fun t => ⟨if t.title.isEmpty then fn else fn ++ [46] ++ t.title, t.tt, t.size⟩) := by
+  induction types generalizing seen main all with
+  | nil => simp [convertLoop] at h; simp [h.2]
+  | cons t rest ih =>
+    simp only [convertLoop] at h
+    split at h
+    · simp at h
+    · rw [ih _ _ _ h]; simp
+
+theorem convertLoop_main (fn : List Nat) (types : List TypeIn) (seen : List (List Nat)) (main : Option MType) (all : List MType)
+    (m : MType) (a : List MType) (h : convertLoop fn types seen main all = some (some m, a)) :
+    (∃ t, t ∈ types ∧ t.title = [] ∧ m = ⟨fn, t.tt, t.size⟩) ∨ main = some m := by
+  induction types generalizing seen main all with
+  | nil => simp [convertLoop] at h; exact Or.inr h.1
+  | cons t rest ih =>
+    simp only [convertLoop] at h
+    split at h
+    · simp at h
+    · rcases ih _ _ _ h with ⟨t', ht', h1, h2⟩ | hm
+      · exact Or.inl ⟨t', by simp [ht'], h1, h2⟩
+      · by_cases he : t.title.isEmpty = true
+        · simp only [he, if_true, Option.some.injEq] at hm
+          exact Or.inl ⟨t, by simp, by simpa using he, hm.symm⟩
+        · simp only [he] at hm
+          exact Or.inr hm
+
 end SV.Tok
